@@ -837,6 +837,8 @@ func main() {
 	full := types([]int64{0, 1, 2, 3, 5}, []int64{0, 1, 2, 3})
 	red := types([]int64{0, 1, 3, 4}, []int64{0, 1, 2})
 	tiny := types([]int64{0, 1, 2, 5}, []int64{0, 1, 3})[1:]
+	six := []tcoin{{1, 0}, {1, 1}, {2, 3}, {5, 1}, {0, 3}, {3, 1}}
+	five := []tcoin{{1, 0}, {1, 2}, {3, 1}, {5, 3}, {2, 1}}
 	targets := []int64{0, 1, 2, 3, 4, 5, 6, 7, 8, 9, 10, 11, 13}
 	maxins := []int{0, 1, 2, 3, 4, 5, 6, 7, 8}
 	mcs := []int64{0, 1, 2}
@@ -849,15 +851,19 @@ func main() {
 	}
 	var scopes []scope
 	if cfg.Search {
-		scopes = []scope{{full, 0, 0}, {full, 1, 0}, {full, 2, 0}, {full, 3, 0}, {full, 4, 25}, {red, 5, 20}, {tiny, 6, 4}, {tiny, 7, 1}}
+		scopes = []scope{{full, 0, 0}, {full, 1, 0}, {full, 2, 0}, {full, 3, 0}, {full, 4, 14}, {red, 5, 12}, {six, 6, 40}, {five, 7, 30}}
 	} else if cfg.Thorough() {
-		scopes = []scope{{full, 0, 0}, {full, 1, 0}, {full, 2, 0}, {full, 3, 0}, {full, 4, 12}, {red, 5, 10}, {tiny, 6, 2}, {tiny, 7, 1}}
+		scopes = []scope{{full, 0, 0}, {full, 1, 0}, {full, 2, 0}, {full, 3, 0}, {full, 4, 12}, {red, 5, 10}, {six, 6, 35}, {five, 7, 25}}
 	} else {
 		scopes = []scope{{full, 0, 0}, {full, 1, 0}, {full, 2, 0}, {full, 3, 40}, {red, 4, 30}, {tiny, 5, 4}}
 	}
 	hist := map[string]int{}
 	for _, sc := range scopes {
-		v, st := sweep(sc.t, sc.n, ps, avgs, sc.sample, cfg.Seed)
+		sseed := cfg.Seed
+		if cfg.Search {
+			sseed ^= 0x5ea7c4
+		}
+		v, st := sweep(sc.t, sc.n, ps, avgs, sc.sample, sseed)
 		vs = append(vs, v...)
 		for k := 0; k < 4; k++ {
 			rep.Evaluations += st.runs[k]
